@@ -770,14 +770,14 @@ func (f *FeaturesByID) isGraphNode(from *featureBlock, point Reference) bool {
 				case PointTagCommon:
 					var p CommonPoint
 					p.Unmarshal(&fb.Namespaces, t.Data)
-					if len(p.Tags) > 0 {
+					if len(p.Tags) > 1 { // the location is itself a tag
 						return true
 					}
 					paths++
 				case PointTagFull:
 					var p FullPoint
 					p.Unmarshal(&fb.Namespaces, t.Data)
-					if len(p.Tags) > 0 {
+					if len(p.Tags) > 1 { // the location is itself a tag
 						return true
 					}
 					paths += len(p.Paths)
